@@ -4,7 +4,7 @@ SPEC = {
     "coq_targets": ["Props/C05.vo", "Script/ChunkCases.vo"],
     "harness": "hx-script",
     "translators": [],
-    "level_text": "Proof (Coq): the cycle accounting of TransactionScriptsVerifier (verify, resumable_verify, resume_from_state, complete, resumable_verify_with_signal, TransactionState, checked cycle addition, the TYPE_ID special case) is transcribed over an abstract deterministic script-group machine; under the machine hypotheses H1-H3 (determinism, chunk additivity, schedule-independent failure) every chain of chunks of any sizes either is still suspended in a state satisfying the invariant or ends with exactly the answer of verify(max) for every max >= cost (c05_chunked_eq_whole, c05_resume_preserves); a budget below the cost reports ExceededMaximumCycles, a budget of at least the cost equals the unlimited run (c05_budget_below_cost_fails, c05_budget_at_least_cost_eq_unlimited); chunked runs terminate within tx_total+#groups chunks when every limit is at least the largest atomic step (c05_progress); complete and the signal-driven run equal the unlimited run for budgets >= cost; the hypotheses are satisfiable (toy_satisfies_H). Two statements are refuted on the faithful model and on the real code: complete(state, max) and resumable_verify_with_signal(limit) can succeed with a budget below the cost (c05_complete_budget_refuted, c05_signal_budget_refuted; known findings). The model is tied to the code on every run: the real verifier runs transactions built from script/testdata programs (VM 0/1/2, exec, spawn/pipe/wait, TYPE_ID, several groups) under budgets cost-1/cost/cost+1, group-boundary budgets, random and boundary-aimed chunk partitions, complete() from intermediate states and scripted Suspend/Resume signals; the property predicate is evaluated directly on the answers and every observed TransactionState/total/error is recomputed by the model. The program table includes ckb_dlopen2 (load_cell_data_as_code) programs: load_is_even_with_snapshot with is_even.lib as it is and re-packed so that its executable segment lies one page into the cell (non-zero content offset; a decoy sits at the old place), odd and even argument, VM 0/1/2.",
+    "level_text": "Proof (Coq): the cycle accounting of TransactionScriptsVerifier (verify, resumable_verify, resume_from_state, complete, resumable_verify_with_signal, TransactionState, checked cycle addition, the TYPE_ID special case) is transcribed over an abstract deterministic script-group machine; under the machine hypotheses H1-H3 (determinism, chunk additivity, schedule-independent failure) every chain of chunks of any sizes either is still suspended in a state satisfying the invariant or ends with exactly the answer of verify(max) for every max >= cost (c05_chunked_eq_whole, c05_resume_preserves); a budget below the cost reports ExceededMaximumCycles, a budget of at least the cost equals the unlimited run (c05_budget_below_cost_fails, c05_budget_at_least_cost_eq_unlimited); chunked runs terminate within tx_total+#groups chunks when every limit is at least the largest atomic step (c05_progress); complete and the signal-driven run equal the unlimited run for budgets >= cost; the hypotheses are satisfiable (toy_satisfies_H). Two statements are refuted on the faithful model and on the real code: complete(state, max) and resumable_verify_with_signal(limit) can succeed with a budget below the cost (c05_complete_budget_refuted, c05_signal_budget_refuted; known findings). The model is tied to the code on every run: the real verifier runs transactions built from script/testdata programs (VM 0/1/2, exec, spawn/pipe/wait, TYPE_ID, several groups) under budgets cost-1/cost/cost+1, group-boundary budgets, random and boundary-aimed chunk partitions, complete() from intermediate states and scripted Suspend/Resume signals; the property predicate is evaluated directly on the answers and every observed TransactionState/total/error is recomputed by the model. The program table includes ckb_dlopen2 (load_cell_data_as_code) programs: load_is_even_with_snapshot with is_even.lib as it is and re-packed so that its executable segment lies one page into the cell (non-zero content offset; a decoy sits at the old place), odd and even argument, VM 0/1/2. Transactions with a group whose code hash is the TYPE_ID constant under a data hash type (an ordinary script that resolves to no cell) must fail the same way in verify, chunked and signal-driven execution (C05r6).",
     "level_note": "PARTIAL: that the real scheduler + CKB-VM satisfy H2 (snapshot/restore fidelity, pipes, suspended VMs) is tested by the correspondence, not proved; CKB-VM is not modelled. A pause signal is modelled as a cut of the run at some cycle count. The check found that H2 is false of the real scheduler for pipe-using scripts (known finding chunk-limit-crossed-by-io-syscall-skips-process-io).",
     "trusted_base": COMMON_TB + [
         "hand-written model coq/Script/Chunk.v of script/src/verify.rs (accounting layer only), tied by the correspondence check (hx-script) on every run",
